@@ -30,13 +30,13 @@ type Case struct {
 	Mode  string   `json:"mode,omitempty"` // NOTHING | NEW | OVERWRITE
 
 	// reader op: random seek/read history against a file
-	Path     string `json:"path,omitempty"`
-	Truth    []byte `json:"truth,omitempty"`
+	Path  string `json:"path,omitempty"`
+	Truth []byte `json:"truth,omitempty"`
 	// reader op: take the ground truth from the file itself (os.ReadFile), for files too large to ship in a case
-	TruthFromFile bool `json:"truth_from_file,omitempty"`
-	Ops      int    `json:"ops,omitempty"`
-	Seed     uint64 `json:"seed,omitempty"`
-	ReadPlan []int  `json:"read_plan,omitempty"` // explicit (op,off,len) triples
+	TruthFromFile bool   `json:"truth_from_file,omitempty"`
+	Ops           int    `json:"ops,omitempty"`
+	Seed          uint64 `json:"seed,omitempty"`
+	ReadPlan      []int  `json:"read_plan,omitempty"` // explicit (op,off,len) triples
 
 	// glob op
 	Pattern string `json:"pattern,omitempty"`
@@ -49,6 +49,9 @@ type Case struct {
 	Goroutines int    `json:"goroutines,omitempty"`
 	Yield      bool   `json:"yield,omitempty"`
 	Rounds     int    `json:"rounds,omitempty"`
+
+	// runfiles: the soft limit on open file descriptors during the call (0 = leave it alone); Rounds repeats the call
+	FdLimit int `json:"fd_limit,omitempty"`
 }
 
 // Call is one API call inside a history or a concurrent round.
@@ -67,21 +70,21 @@ type Call struct {
 
 // Step of a session: optionally (re)write files, then optionally run a program over files.
 type Step struct {
-	Write map[string][]byte `json:"write,omitempty"` // name (relative to Case.Dir) -> new content
-	Src   []byte            `json:"src,omitempty"`
-	Files []string          `json:"files,omitempty"` // names relative to Case.Dir
-	Mode  string            `json:"mode,omitempty"`
-	Text  []byte            `json:"text,omitempty"`     // also run the program on this text in memory
-	WantMatches bool        `json:"want_matches,omitempty"`
+	Write       map[string][]byte `json:"write,omitempty"` // name (relative to Case.Dir) -> new content
+	Src         []byte            `json:"src,omitempty"`
+	Files       []string          `json:"files,omitempty"` // names relative to Case.Dir
+	Mode        string            `json:"mode,omitempty"`
+	Text        []byte            `json:"text,omitempty"` // also run the program on this text in memory
+	WantMatches bool              `json:"want_matches,omitempty"`
 }
 
 type StepResult struct {
-	CompileErr string            `json:"compile_err,omitempty"`
-	Panic      *PanicInfo        `json:"panic,omitempty"`
-	NMatches   int               `json:"n_matches"`
-	Matches    []Match           `json:"matches,omitempty"`
-	StringMatches []Match        `json:"string_matches,omitempty"`
-	Contents   map[string][]byte `json:"contents"` // every regular file in the directory after the step
+	CompileErr    string            `json:"compile_err,omitempty"`
+	Panic         *PanicInfo        `json:"panic,omitempty"`
+	NMatches      int               `json:"n_matches"`
+	Matches       []Match           `json:"matches,omitempty"`
+	StringMatches []Match           `json:"string_matches,omitempty"`
+	Contents      map[string][]byte `json:"contents"` // every regular file in the directory after the step
 }
 
 type Var struct {
@@ -157,18 +160,18 @@ type Compile struct {
 }
 
 type Result struct {
-	ID       int       `json:"id"`
-	Compile  *Compile  `json:"compile,omitempty"`
-	Compiles []Compile `json:"compiles,omitempty"`
-	Runs     []Run     `json:"runs,omitempty"`
-	ASTEqual []bool    `json:"ast_equal,omitempty"` // astcmp: Srcs[i] vs Srcs[0]
-	Files    []string  `json:"files,omitempty"`     // glob
-	Calls    []Call    `json:"calls,omitempty"`
-	Mismatch string    `json:"mismatch,omitempty"` // reader op: first wrong read
-	Counters map[string]int `json:"counters,omitempty"`
-	Panic    *PanicInfo `json:"panic,omitempty"` // panic outside a classified phase
-	Races    int       `json:"races,omitempty"`
-	StepResults []StepResult `json:"step_results,omitempty"`
+	ID          int            `json:"id"`
+	Compile     *Compile       `json:"compile,omitempty"`
+	Compiles    []Compile      `json:"compiles,omitempty"`
+	Runs        []Run          `json:"runs,omitempty"`
+	ASTEqual    []bool         `json:"ast_equal,omitempty"` // astcmp: Srcs[i] vs Srcs[0]
+	Files       []string       `json:"files,omitempty"`     // glob
+	Calls       []Call         `json:"calls,omitempty"`
+	Mismatch    string         `json:"mismatch,omitempty"` // reader op: first wrong read
+	Counters    map[string]int `json:"counters,omitempty"`
+	Panic       *PanicInfo     `json:"panic,omitempty"` // panic outside a classified phase
+	Races       int            `json:"races,omitempty"`
+	StepResults []StepResult   `json:"step_results,omitempty"`
 
 	ElapsedMs int `json:"elapsed_ms,omitempty"` // wall time the worker spent on this case
 
